@@ -181,6 +181,8 @@ type Model struct {
 	UsesDep2  bool
 	SyncQual  string
 	SrcQual   string
+	// UnknownOptions: see props.SkelOpts
+	UnknownOptions bool
 }
 
 func tok(op string, idx ...int) string {
